@@ -946,6 +946,11 @@ func (w *WAL) Close() error {
 
 // SetRotating marks the WAL as rotating
 func (w *WAL) SetRotating() {
+	// Wait for an append in flight: it checks the status when it starts and again
+	// when it syncs, and must not find it changed after its record was buffered
+	w.mu.Lock()
+	defer w.mu.Unlock()
+
 	atomic.StoreInt32(&w.status, WALStatusRotating)
 }
 
